@@ -209,8 +209,8 @@ func VerifC04_Range(cs int) {
 	cs /= 3
 	aw := cs % 3
 	bw := cs / 3 % 4
-	kwX := VsChoose("kwx", 2) * 13 // none or "bef"
-	kwY := VsChoose("kwy", 2) * 10 // none or "aft"
+	kwX := VsChoose("kwx", 2) * 13                    // none or "bef"
+	kwY := VsChoose("kwy", 2) * 10                    // none or "aft"
 	x := vWriteDate("x", kwX, caseV, 4, shapeX, " ")  // mar
 	y := vWriteDate("y", kwY, caseV, 22, shapeY, " ") // december
 	text := vCaseVariant(vBetweenWords[bw], caseV) + " " + x.text + " " + vCaseVariant(vAndWords[aw], caseV) + " " + y.text
